@@ -337,7 +337,7 @@ pub fn arb_eb(nv: usize) -> BoxedStrategy<EB> {
         2 => (0..nv).prop_map(EB::NthVarInv),
         6 => (vec(0..nv, 0..=5), any::<bool>()).prop_map(|(v, x)| EB::FromVars(v, x)),
         // full or nearly full support (all nv variables, possibly one missing)
-        1 => (any::<bool>(), 0..=nv).prop_map(move |(x, skip)| EB::FromVars((0..nv).filter(|v| *v != skip).collect(), x)),
+        1 => (any::<bool>(), 0..=nv, any::<bool>()).prop_map(move |(x, skip, all)| EB::FromVars((0..nv).filter(|v| all || *v != skip).collect(), x)),
     ];
     leaf.prop_recursive(3, 8, 2, |inner| {
         prop_oneof![
